@@ -27,6 +27,26 @@ def gen_hierarchy(rng):
     return leaves, levels
 
 
+def gen_exact(rng, leaves, levels):
+    """a sample of 100 rows in which the members of one first-level group are each rarer than min_freq but add up to exactly
+    min_freq of the rows (1 + 9, 3 + 7, 2 + 3 + 5 rows of 100 ...): the group is frequent enough as a whole, by exact counting"""
+    mf = rng.choice([0.1, 0.2, 0.3])
+    target = int(round(mf * 100))
+    groups = [(g, [m for m in ms if m in leaves]) for g, ms in levels[0].items()]
+    groups = [(g, ms) for g, ms in groups if len(ms) >= 2]
+    if not groups:
+        return None
+    g, ms = rng.choice(groups)
+    ms = ms[:rng.choice([2, 3]) if len(ms) >= 3 else 2]
+    cuts = sorted(rng.sample(range(1, target), len(ms) - 1))
+    parts = [b - a for a, b in zip([0] + cuts, cuts + [target])]
+    rest = [l for l in leaves if l not in ms]
+    vals = [m for m, k in zip(ms, parts) for _ in range(k)]
+    vals += [rng.choice(rest) if rest else None for _ in range(100 - target)]
+    rng.shuffle(vals)
+    return vals, mf
+
+
 def gen_sample(rng, leaves, levels):
     n = rng.choice([20, 50, 100, 200])
     w = [rng.choice([0, 0, 1, 2, 5, 10, 30]) for _ in leaves]
@@ -38,9 +58,11 @@ def gen_sample(rng, leaves, levels):
     unknown = rng.random() < 0.2
     numeric_leaves = all(l.isdigit() for l in leaves)
     if unknown:
+        only_empty = rng.random() < 0.25      # the empty string as the only unknown value (a falsy value)
         for _ in range(rng.randint(1, 3)):
             # with a numeric hierarchy the unknown value may be numeric too (a number no level mentions)
-            vals[rng.randrange(n)] = rng.choice(["97", "98"] if (numeric_leaves and rng.random() < 0.6) else ["mystery", "other_unknown"])
+            vals[rng.randrange(n)] = "" if only_empty else \
+                rng.choice(["97", "98"] if (numeric_leaves and rng.random() < 0.6) else ["mystery", "other_unknown", ""])
     if rng.random() < (0.6 if numeric_leaves else 0.1):
         vals = [v if v is None or not v.isdigit() else int(v) for v in vals]     # numeric column -> StringDiscretizer
     return vals, unknown
@@ -56,6 +78,11 @@ def run_case(drv, rng, stats):
     leaves, levels = gen_hierarchy(rng)
     vals, has_unknown = gen_sample(rng, leaves, levels)
     mf = rng.choice([0.02, 0.05, 0.1, 0.15, 0.2, 0.3, 0.5])
+    if rng.random() < 0.12:
+        ex = gen_exact(rng, leaves, levels)
+        if ex is not None:
+            (vals, mf), has_unknown = ex, False
+            stats["exact_threshold_cases"] = stats.get("exact_threshold_cases", 0) + 1
     handling = rng.choice(["raise", "drop"])
     X = pd.DataFrame({"f": pd.Series(vals, dtype=object), "extra_col": range(len(vals))})
     X.index = fitgen._index(rng, len(vals))
